@@ -1,7 +1,6 @@
 package refevm
 
 import (
-	"fmt"
 	"math/big"
 )
 
@@ -100,31 +99,20 @@ const (
 	HaltCollision    = "address collision"
 )
 
-type kind int
-
-const (
-	kCall kind = iota
-	kCallCode
-	kDelegateCall
-	kStaticCall
-	kCreate
-	kCreate2
-)
-
 // Message is one message call or contract creation.
 type Message struct {
-	Caller   Address  // msg.sender inside the frame
-	Self     Address  // account whose storage/balance context is used (ADDRESS)
-	CodeAddr Address  // account the code is taken from (precompile dispatch key)
-	Value    *big.Int // CALLVALUE
-	Transfer bool     // whether Value is moved from Caller to Self
-	Data     []byte
-	Gas      uint64
-	Depth    int // 0 for the transaction-level message
-	Static   bool
-	Create   bool
-	Code     []byte // code to run (init code for creations); resolved by the caller
-	NoPrecompile bool // EIP-7702: code reached through a delegation never runs as a precompile
+	Caller       Address  // msg.sender inside the frame
+	Self         Address  // account whose storage/balance context is used (ADDRESS)
+	CodeAddr     Address  // account the code is taken from (precompile dispatch key)
+	Value        *big.Int // CALLVALUE
+	Transfer     bool     // whether Value is moved from Caller to Self
+	Data         []byte
+	Gas          uint64
+	Depth        int // 0 for the transaction-level message
+	Static       bool
+	Create       bool
+	Code         []byte // code to run (init code for creations); resolved by the caller
+	NoPrecompile bool   // EIP-7702: code reached through a delegation never runs as a precompile
 }
 
 // Result is the outcome of a message.
@@ -493,5 +481,3 @@ func (f *frame) okResult(out []byte, why string) (bool, Result) {
 	f.e.cov(why)
 	return true, Result{OK: true, GasLeft: f.gas, Output: out}
 }
-
-func unknownOp(op byte) string { return fmt.Sprintf("%s 0x%02x", HaltInvalidOp, op) }
